@@ -8,7 +8,11 @@
 (*   - comparisons subtract first.                                              *)
 (* An overflow therefore stops TLC (machinery error, exit 2), it can never turn *)
 (* into a verdict.  JSON arrays [n, d] deserialise to exactly this shape.       *)
-EXTENDS Integers, Sequences
+EXTENDS Integers, Sequences, TLC
+
+(* TLC keeps [i \in S |-> e] as an unevaluated lambda and re-evaluates e on every  *)
+(* application; Eager turns it into an explicit table once.                      *)
+Eager(f) == TLCEval(f)
 
 IAbs(a) == IF a >= 0 THEN a ELSE -a
 IMax(a, b) == IF a >= b THEN a ELSE b
